@@ -10,7 +10,12 @@
      - v_text : compileCmdContent tests attProps[0] == "text"   (pinned: attProps[1]),
      - v_cdata: handle_data does not escape inside script/style  (pinned: always escaped),
      - v_eof  : parseTemplate rejects TAL/METAL elements still open at the end of the input
-                (pinned: accepted, leaving an undefined end-tag symbol).
+                (pinned: accepted, leaving an undefined end-tag symbol),
+     - v_dup  : parseStartTag rejects a statement that occurs twice on one element and tal:content
+                together with tal:replace (pinned: both commands are emitted),
+     - v_start: a macro / slot starts at the first command of its element
+                (pinned: at len(commandList) when the define-macro / fill-slot statement is compiled,
+                which is inside the element when a use-macro / define-slot command precedes it).
    Not modelled (result Unsupported): re-declaration of the tal:/metal: namespace prefixes
    through xmlns attributes.  Definitions only. *)
 From Coq Require Import String.
@@ -33,9 +38,9 @@ Arguments COk {A} a.
 Arguments CErr {A}.
 Arguments CUnsupported {A}.
 
-Record variant : Type := mkVariant { v_text : bool; v_cdata : bool; v_eof : bool }.
-Definition pinned : variant := mkVariant false false false.
-Definition repaired : variant := mkVariant true true true.
+Record variant : Type := mkVariant { v_text : bool; v_cdata : bool; v_eof : bool; v_dup : bool; v_start : bool }.
+Definition pinned : variant := mkVariant false false false false false.
+Definition repaired : variant := mkVariant true true true true true.
 
 (* ---- small string helpers (Python semantics) ---- *)
 Definition SP : N := 32.
@@ -273,8 +278,9 @@ Fixpoint update_nth {A} (n : nat) (f : A -> option A) (l : list A) : option (lis
   end.
 
 (* one TAL/METAL statement: Some None = accepted, no command (define-macro, fill-slot) *)
-Definition compile_stmt (fixed : variant) (op : nat) (arg : str) (s : cstate) : cres (option cmd * cstate) :=
+Definition compile_stmt (fixed : variant) (estart : nat) (op : nat) (arg : str) (s : cstate) : cres (option cmd * cstate) :=
   let sym := cs_sym s in
+  let start := if v_start fixed then estart else ncmds s in
   let lift (o : option cmd) : cres (option cmd * cstate) :=
     match o with Some c => COk (Some c, s) | None => CErr end in
   if Nat.eqb op OP_DEFINE then lift (compile_define arg)
@@ -293,7 +299,7 @@ Definition compile_stmt (fixed : variant) (op : nat) (arg : str) (s : cstate) : 
       match assoc_str arg (cs_macros s) with
       | Some _ => CErr                   (* macro name already defined *)
       | None => COk (None, mkCS (cs_rcmds s) (cs_stack s) (cs_syms s)
-                                (cs_macros s ++ [(arg, (ncmds s, sym))]) (cs_sym s))
+                                (cs_macros s ++ [(arg, (start, sym))]) (cs_sym s))
       end
     else CErr
   else if Nat.eqb op OP_FILL_SLOT then
@@ -309,7 +315,7 @@ Definition compile_stmt (fixed : variant) (op : nat) (arg : str) (s : cstate) : 
                               | CUseMacro e sl sy =>
                                   match assoc_str arg sl with
                                   | Some _ => None         (* slot already filled *)
-                                  | None => Some (CUseMacro e (sl ++ [(arg, (n, sym))]) sy)
+                                  | None => Some (CUseMacro e (sl ++ [(arg, (start, sym))]) sy)
                                   end
                               | _ => None
                               end) (cs_rcmds s) with
@@ -322,7 +328,7 @@ Definition compile_stmt (fixed : variant) (op : nat) (arg : str) (s : cstate) : 
   else CErr.
 
 (* the loop `for talAtt in allCommands` of parseStartTag *)
-Fixpoint compile_stmts (fixed : variant) (ops : list nat) (args : list (nat * str))
+Fixpoint compile_stmts (fixed : variant) (estart : nat) (ops : list nat) (args : list (nat * str))
                        (tag : str) (clean orig : list (str * str)) (first : bool) (s : cstate)
   : cres (bool * cstate) :=
   match ops with
@@ -331,11 +337,11 @@ Fixpoint compile_stmts (fixed : variant) (ops : list nat) (args : list (nat * st
       match assoc_nat op args with
       | None => CErr
       | Some arg =>
-          match compile_stmt fixed op arg s with
+          match compile_stmt fixed estart op arg s with
           | COk (Some c, s1) =>
               let s2 := if first then add_tag tag clean orig (Some (cs_sym s)) (Some c) s1 else add_command c s1 in
-              compile_stmts fixed r args tag clean orig false s2
-          | COk (None, s1) => compile_stmts fixed r args tag clean orig first s1
+              compile_stmts fixed estart r args tag clean orig false s2
+          | COk (None, s1) => compile_stmts fixed estart r args tag clean orig first s1
           | CErr => CErr
           | CUnsupported => CUnsupported
           end
@@ -354,7 +360,10 @@ Record scan : Type := mkScan {
 Definition has_prefix_colon (s : str) : bool :=          (* s.find(':') > 0 *)
   match find_colon s with Some (S _) => true | _ => false end.
 
-Fixpoint scan_atts (talns : bool) (prefix : str) (a : list (str * str)) (sc : scan) : cres scan :=
+Definition has_arg (op : nat) (sc : scan) : bool :=
+  match assoc_nat op (sc_args sc) with Some _ => true | None => false end.
+
+Fixpoint scan_atts (fixed : variant) (talns : bool) (prefix : str) (a : list (str * str)) (sc : scan) : cres scan :=
   match a with
   | [] => COk sc
   | (att, value) :: r =>
@@ -362,19 +371,21 @@ Fixpoint scan_atts (talns : bool) (prefix : str) (a : list (str * str)) (sc : sc
       let cname := if talns && negb (has_prefix_colon att) then prefix ++ att else att in
       if str_eqb (firstn 5 att) (lit "xmlns"%string) then
         if str_eqb value METAL_URI || str_eqb value TAL_URI then CUnsupported
-        else scan_atts talns prefix r (mkScan orig (sc_tal sc) (sc_metal sc) (sc_args sc) (sc_clean sc ++ [(att, value)]))
+        else scan_atts fixed talns prefix r (mkScan orig (sc_tal sc) (sc_metal sc) (sc_args sc) (sc_clean sc ++ [(att, value)]))
       else
         match assoc_str cname tal_attribute_map with
         | Some op =>
             if Nat.eqb op OP_OMITTAG && talns then
-              scan_atts talns prefix r (mkScan orig (sc_tal sc) (sc_metal sc) (sc_args sc) (sc_clean sc))
-            else scan_atts talns prefix r
+              scan_atts fixed talns prefix r (mkScan orig (sc_tal sc) (sc_metal sc) (sc_args sc) (sc_clean sc))
+            else if v_dup fixed && has_arg op sc then CErr
+            else scan_atts fixed talns prefix r
                    (mkScan orig (sc_tal sc ++ [op]) (sc_metal sc) (dict_set_nat op value (sc_args sc)) (sc_clean sc))
         | None =>
             match assoc_str cname metal_attribute_map with
-            | Some op => scan_atts talns prefix r
+            | Some op => if v_dup fixed && has_arg op sc then CErr
+                         else scan_atts fixed talns prefix r
                            (mkScan orig (sc_tal sc) (sc_metal sc ++ [op]) (dict_set_nat op value (sc_args sc)) (sc_clean sc))
-            | None => scan_atts talns prefix r
+            | None => scan_atts fixed talns prefix r
                         (mkScan orig (sc_tal sc) (sc_metal sc) (sc_args sc) (sc_clean sc ++ [(att, value)]))
             end
         end
@@ -391,16 +402,17 @@ Definition parse_start_tag (fixed : variant) (tag : str) (a : list (str * str)) 
   let talns := match ns with Some _ => true | None => false end in
   let prefix := match ns with Some p => p | None => [] end in
   let sc0 := if talns then mkScan [] [OP_OMITTAG] [] [(OP_OMITTAG, [])] [] else mkScan [] [] [] [] [] in
-  match scan_atts talns prefix a sc0 with
+  match scan_atts fixed talns prefix a sc0 with
   | CErr => CErr
   | CUnsupported => CUnsupported
   | COk sc =>
+      if v_dup fixed && has_arg OP_CONTENT sc && has_arg OP_REPLACE sc then CErr else
       match sc_tal sc, sc_metal sc with
       | [], [] => COk (add_tag tag (sc_clean sc) [] None None s)
       | _, _ =>
           let s1 := mkCS (cs_rcmds s) (cs_stack s) (cs_syms s) (cs_macros s) (S (cs_sym s)) in
           let ops := sort_nat (sc_metal sc) ++ sort_nat (sc_tal sc) in
-          match compile_stmts fixed ops (sc_args sc) tag (sc_clean sc) (sc_orig sc) true s1 with
+          match compile_stmts fixed (ncmds s1) ops (sc_args sc) tag (sc_clean sc) (sc_orig sc) true s1 with
           | COk (first, s2) =>
               if first then COk (add_tag tag (sc_clean sc) (sc_orig sc) (Some (cs_sym s1)) (Some (CStartTag tag false)) s2)
               else COk (add_command (CStartTag tag false) s2)
